@@ -1,7 +1,9 @@
 (* C14 — base types of the structural model (no proofs).
 
    Abstraction alpha from a real operator object to a model term:
-     tensor            |->  T id dtype requires_grad     (id = identity of the storage, shapes/values forgotten)
+     tensor            |->  T id val dtype requires_grad   (id = identity of the storage; val = identity of the
+                                                           VALUE: two tensors get the same val iff they have the same
+                                                           shape and the same entries after casting to float64)
      LinearOperator    |->  AOp cls children dnames ndkw attrs
                               children = _args ++ _differentiable_kwargs.values()   (the chain the representation
                                          tree iterates over), dnames = _differentiable_kwargs.keys()
@@ -68,9 +70,9 @@ Definition lib_classes : list cls :=
    CMul; CConstantMul; CBlockDiag; CBlockInterleaved; CSumBatch; CBatchRepeat; CCat; CInterpolated; CMasked;
    CPermutation; CTransposePermutation; CKernel].
 
-Record tensor := T { tid : nat; tdt : dt; trg : bool }.
+Record tensor := T { tid : nat; tvl : nat; tdt : dt; trg : bool }.
 Definition tensor_eqb (a b : tensor) : bool :=
-  Nat.eqb (tid a) (tid b) && dt_eqb (tdt a) (tdt b) && Bool.eqb (trg a) (trg b).
+  Nat.eqb (tid a) (tid b) && Nat.eqb (tvl a) (tvl b) && dt_eqb (tdt a) (tdt b) && Bool.eqb (trg a) (trg b).
 
 Inductive arg :=
 | ATensor (t : tensor)
@@ -109,3 +111,9 @@ Definition k_output_device : Z := 2732962019331753100735041390360891176759217932
 Definition k_preconditioner_override : Z := 2757188973871499020525467229095440920872349636761032615168%Z.
 Definition k_upper : Z := 2879601173724441034798917244401701103699905152920579997696%Z.
 Definition k_validate_args : Z := 2902682896999310849220156771834115251320874083618910109696%Z.
+(* names used by the kwargs-layout cases of the harness (extra **kwargs of Sum / Kernel operators) *)
+Definition k_alpha : Z := 2388819481049592196798360091655905639872287338735052259328%Z.
+Definition k_zeta : Z := 3001148716390211974524522504988510969365376666409428320256%Z.
+Definition k_square : Z := 2830658962266378318882272757061229757670752237687870062592%Z.
+Definition k_shift : Z := 2829792451108285168796792142268246948125003888765490429952%Z.
+Definition k_extra : Z := 2488050078513351500530680484274005188148243021130689937408%Z.
